@@ -179,7 +179,8 @@ pub fn gen_seq(seed: u64, ncases: u64, maxlen: u64, zero_ok: bool, rebuilds: boo
     let mut r0 = Rng::new(seed ^ 0x5345_5100);
     for case in 0..ncases {
         let mut r = r0.fork();
-        let price = *r.pick(&[100u64, 1, 7, 1000]);
+        // level prices: small ones, 0 (legal: every value is then 0) and a large one
+        let price = *r.pick(&[100u64, 1, 7, 1000, 100, 1000, 0, 1 << 32]);
         let npool = r.range(3, 7);
         let len = 1 + r.below(maxlen);
         let big = r.chance(1, 25);
@@ -258,7 +259,8 @@ pub fn gen_seq(seed: u64, ncases: u64, maxlen: u64, zero_ok: bool, rebuilds: boo
             let choice = r.below(100);
             if choice < 38 || live.is_empty() && choice < 70 {
                 // add with an id that is not live
-                let cands: Vec<OrderId> = (1..=npool).map(pool_id).filter(|i| !live.contains(i)).collect();
+                // pool ids 0..npool: 0 is the nil id
+                let cands: Vec<OrderId> = (0..=npool).map(pool_id).filter(|i| !live.contains(i)).collect();
                 if cands.is_empty() { continue; }
                 let id = if rebuilt { fresh += 1; pool_id(fresh) } else { *r.pick(&cands) };
                 // with `offprice` (E-seqr, E-seqp) one order in six carries a price other than the level's: legal
@@ -278,9 +280,12 @@ pub fn gen_seq(seed: u64, ncases: u64, maxlen: u64, zero_ok: bool, rebuilds: boo
                     2 => lvl.visible_quantity(),
                     3 => lvl.visible_quantity().saturating_add(1),
                     4 => if big { r.range(1 << 40, 1 << 60) } else { r.below(50) },
+                    5 => if r.chance(1, 3) { u64::MAX } else { r.range(1, 15) },
                     _ => r.range(1, 15),
                 };
-                let taker = pool_id(900 + r.below(3));
+                // the taker: usually an outside id, sometimes the id of an order resting here (a self-match is
+                // not rejected by the level)
+                let taker = if !live.is_empty() && r.chance(1, 12) { *r.pick(&live) } else { pool_id(900 + r.below(3)) };
                 out.push(format!("match {} {}", q, show_id(&taker)));
                 let _ = lvl.match_order(q, taker, &generator);
             } else {
